@@ -66,7 +66,7 @@ def gen_traffic(r, driver, n):
 
     for _ in range(n):
         k = r.choice(["plain", "query-answer", "query-silent", "query-noframe", "query-error",
-                      "twice-ok", "twice-once", "twice-interrupted", "twice-backward",
+                      "twice-ok", "twice-once", "twice-interrupted", "twice-backward", "twice-other-length",
                       "edt-ext", "edt-other-ext", "edt-edt-ext", "24bit", "event", "unknown", "burst"])
         if k == "plain":
             s, c = _foreign_cmd(r, ["plain16", "plain24"])
@@ -95,6 +95,11 @@ def gen_traffic(r, driver, n):
             s2, c2 = _foreign_cmd(r, ["plain16", "query16", "twice16"])
             items.append({"t_us": t, "frames": [[s[0], s[1]], [s2[0], s2[1]]], "kind": k,
                           "gap2_us": r.choice([14000, 40000])})
+        elif k == "twice-other-length":
+            # a configuration command seen once, then a 24-bit frame with the very same value (first byte 0x00:
+            # an event of the input device at short address 0): no repeat - and a frame of its own
+            s, c = _foreign_cmd(r, ["twice16"])
+            items.append({"t_us": t, "frames": [[16, s[1]], [24, s[1]]], "kind": k, "gap2_us": r.choice([14000, 30000])})
         elif k == "twice-backward":
             s, c = _foreign_cmd(r, ["twice16"])
             items.append({"t_us": t, "frames": [[s[0], s[1]]], "kind": k,
@@ -181,7 +186,7 @@ def gen_plan(seed, tier="quick"):
         if driver in ("luba", "sci"):
             cats = [c for c in cats if not c.startswith("dt_")]
         plan["callers"] = plans.gen_callers(r, driver, ncall, 3, mix=(0.8, 0.0, 0.2),
-                                            allow_raise=False, allow_cancel=False, cats=cats,
+                                            allow_raise=False, allow_cancel=False, cats=cats, repeat_object=0.25,
                                             p_error=0.1 if driver in ("tridonic",) else 0.0)
         span = (plan["traffic"][-1]["t_us"] if plan["traffic"] else 200000)
         for c in plan["callers"]:
